@@ -150,6 +150,26 @@ func runC13(p *Program, r *Result) {
 	r.Rule("R13.8", "an error result that is looked at is looked at on every path to a return", 1)
 	checkErrorsExaminedOnEveryPath(p, r, libPkgs)
 
+	r.Rule("R13.10", "the library writes and reads in the caller's goroutine: no go statement in age, internal/stream, internal/format, armor (an error of a write made in the background has to be collected on every way the foreground can end, or it is lost)", 1)
+	{
+		n := 0
+		for _, fn := range p.Funcs {
+			if !inPkg(fn, pkgAge, pkgStream, pkgFormat, pkgArmor) {
+				continue
+			}
+			for _, b := range fn.Blocks {
+				for _, in := range b.Instrs {
+					if g, isGo := in.(*ssa.Go); isGo {
+						n++
+						r.Bad(fn.String(), "background:"+short(calleeName(g.Common())), r.pos(in), "work is handed to a goroutine: its failure reaches the caller only if every later Write and Close waits for it and looks at its error")
+					}
+				}
+			}
+		}
+		if n == 0 {
+			r.OK(pkgStream, "background:none", "", "no go statement in the four packages")
+		}
+	}
 	r.Rule("R13.9", "a refusal is an error: no zero-valued return whose error is a merge that can be nil", 1)
 	checkNoSilentRefusal(p, r, libPkgs)
 
